@@ -62,6 +62,9 @@ type State struct {
 	Alloc string // allocation counter term
 	// deferred calls registered on this path: flag cells are engine-level
 	Defers []*deferRec
+	// Splits: edge conditions of the joins passed since the function entry or the
+	// enclosing loop header; postconditions and invariants are proved per path.
+	Splits [][]string
 }
 
 type deferRec struct {
@@ -81,6 +84,7 @@ func (s *State) clone() *State {
 		n.Heap[k] = v
 	}
 	n.Defers = append([]*deferRec(nil), s.Defers...)
+	n.Splits = append([][]string(nil), s.Splits...)
 	return n
 }
 
@@ -99,6 +103,38 @@ type Obligation struct {
 	Prefix int    // number of body lines (fx.lines) visible to this obligation
 	Clause *Clause
 	AltGrp string
+	Paths  []string // when set: the goal is proved once under each of these hypotheses (they cover the reach condition)
+}
+
+// pathHypotheses enumerates the combinations of join edges (at most max of them,
+// taking the most recent joins), each as a conjunction.
+func pathHypotheses(splits [][]string, max int) []string {
+	var use [][]string
+	n := 1
+	for i := len(splits) - 1; i >= 0; i-- {
+		if len(splits[i]) < 2 {
+			continue
+		}
+		if n*len(splits[i]) > max {
+			break
+		}
+		n *= len(splits[i])
+		use = append([][]string{splits[i]}, use...)
+	}
+	if len(use) == 0 {
+		return nil
+	}
+	out := []string{"true"}
+	for _, alts := range use {
+		var next []string
+		for _, o := range out {
+			for _, a := range alts {
+				next = append(next, and(o, a))
+			}
+		}
+		out = next
+	}
+	return out
 }
 
 // FuncCtx is the per-function execution context.
@@ -159,6 +195,7 @@ type FuncCtx struct {
 	pureInline    bool
 	seeded        map[string]bool
 	fnKey         string
+	wfSeen        map[string]bool
 }
 
 // seed makes an integer term available as an instantiation point for the
@@ -233,6 +270,15 @@ func (fx *FuncCtx) assume(st *State, fact string) {
 	fx.emit("(assert " + imp(st.R, fact) + ")")
 }
 
+// assumeTagged is assume for a named hypothesis (a requires clause or a loop
+// invariant): obligations with a `uses` list leave out the ones they do not name.
+func (fx *FuncCtx) assumeTagged(st *State, fact, tag string) {
+	if fact == "true" || fact == "" {
+		return
+	}
+	fx.emit("(assert " + imp(st.R, fact) + ") ;@hyp:" + tag)
+}
+
 func (fx *FuncCtx) siteName(kind, expr string) string {
 	key := kind + ":" + expr
 	fx.siteN[key]++
@@ -252,6 +298,9 @@ func (fx *FuncCtx) oblige(st *State, kind, label, goal string, pos token.Pos, st
 			ob.Pos = fx.fn.Prog.Fset.Position(pos)
 		}
 		ob.Name = fnDisplay(fx.fn) + "#" + label
+		if kind == "inv-keep" || kind == "post" || kind == "step" || kind == "hint" {
+			ob.Paths = pathHypotheses(st.Splits, 8)
+		}
 		fx.obls = append(fx.obls, ob)
 	}
 	if strengthen && goal != "true" {
@@ -429,6 +478,13 @@ func (fx *FuncCtx) merge(edges []edge) *State {
 	for i, e := range edges {
 		conds[i] = e.cond
 	}
+	// paths: the longest incoming history plus this join
+	for _, e := range edges {
+		if len(e.st.Splits) > len(n.Splits) {
+			n.Splits = append([][]string(nil), e.st.Splits...)
+		}
+	}
+	n.Splits = append(n.Splits, append([]string(nil), conds...))
 	n.R = fx.define("R", "Bool", or(conds...))
 	pick := func(terms []string, sortName string) string {
 		same := true
